@@ -176,6 +176,15 @@ def check_group(crys, label=""):
         Ri = np.round(np.linalg.inv(g.rot)).astype(int)
         im_inv = tuple(tuple(int(np.argsort(im)[k]) for k in range(len(im))) for im in g.indexmap)
         require(find(Ri, -Ri @ np.asarray(g.trans), im_inv), lambda: "%sinverse of rot %s is missing" % (label, np.asarray(g.rot).tolist()))
+        # the library's own inverse (GroupOp.inv) must be that operation: rot^-1, -rot^-1 t, inverted index map
+        gi = g.inv()
+        require(np.all(np.asarray(gi.rot) == Ri) and np.abs(np.asarray(gi.trans) + Ri @ np.asarray(g.trans)).max() < 1e-9
+                and tuple(tuple(int(x) for x in im) for im in gi.indexmap) == im_inv,
+                lambda: "%sGroupOp.inv() of rot %s, trans %s is not its inverse: rot %s trans %s (expected trans %s)"
+                % (label, np.asarray(g.rot).tolist(), np.asarray(g.trans).tolist(), np.asarray(gi.rot).tolist(), np.asarray(gi.trans).tolist(), (-Ri @ np.asarray(g.trans)).tolist()))
+        e = g * gi
+        require(np.all(np.asarray(e.rot) == np.eye(len(Ri), dtype=int)) and np.abs(np.asarray(e.trans)).max() < 1e-9,
+                lambda: "%sg * g.inv() is not the identity for rot %s" % (label, np.asarray(g.rot).tolist()))
     if len(G) <= 48:
         pairs = itertools.product(G, G)
     else:
